@@ -95,6 +95,9 @@ fn health(c: &BTreeMap<String, u64>, _thorough: bool) -> Result<(), String> {
         ("array:push:shortbuf", 20),
         ("array:append_slice:shortbuf", 20),
         ("array:append_name:shortbuf", 5),
+        ("array:append_name:shortbuf-midway-with-open-label", 20),
+        ("suffix:octets-match-but-labels-do-not", 100),
+        ("suffix:real-suffix:is-suffix", 100),
         ("text:has-escape", 100),
         ("text:name-from_str:ok", 100),
         ("text:relative-from_str:ok", 100),
@@ -149,7 +152,7 @@ pub fn prop() -> Option<Prop> {
         assumptions: &[
             "Name/RelativeName slice, range, split, truncate are only called at indices for which is_label_start() is true and with start <= end (documented precondition; other indices panic by contract)",
             "only the unsound direction is a violation for construction steps (Ok where a limit is broken, or an invalid value escapes); refusals of steps that are within limits are recorded as classes, except where a round-trip law demands acceptance (text written by Display / wire octets of a valid name)",
-            "after a failed single-step operation (push, append_slice, append_label, append_name, push_symbol) the observable state (finish() of a clone, in_label) must be unchanged; after a failed multi-step operation (append_dec_u8_label, append_hex_digit_label, append_chars, append_symbols, append_name on a full fixed buffer) it must be a valid state",
+            "after a failed single-step operation (push, append_slice, append_label, append_name, push_symbol) the observable state (finish() of a clone, in_label) must be unchanged; after a failed multi-step operation (append_dec_u8_label, append_hex_digit_label, append_chars, append_symbols, append_name on a full fixed buffer) it must be one of the states the operation passes through (a prefix of its effect; earlier labels intact)",
             "reference reader for the presentation format: '.' separates labels, \\DDD (<= 255) and \\c (printable) escapes, printable ASCII otherwise (refs.rs); reference validator walks length octets (refs.rs); neither calls into domain",
             "zone-file scanner texts use only letters, digits, '-', '_' and \\DDD escapes, so zone-file tokenisation (quotes, parentheses, comments) is not in play (C06/C07)",
         ],
@@ -162,6 +165,7 @@ pub fn prop() -> Option<Prop> {
             SubCheck::new("wire", names::run_wire, 150_000, 1_800_000, 800),
             SubCheck::new("parsed", names::run_parsed, 80_000, 1_000_000, 1500),
             SubCheck::new("ops", names::run_ops, 80_000, 1_000_000, 1500),
+            SubCheck::new("suffix", names::run_suffix, 60_000, 700_000, 200),
             SubCheck::new("scan", scan::run_scan, 50_000, 600_000, 1500),
             SubCheck::sweep("sweep", sweep::run_sweep, sweep::sweep_size),
         ],
